@@ -47,6 +47,27 @@ func RunSeq(c SeqCase) pbt.Outcome {
 	promotions, lastDirty := 0, -1
 	for i, op := range c.Ops {
 		val := i + 1
+		for r := 1; r < op.Rep; r++ { // the repetitions before the last one: loads / load-or-stores that change nothing
+			if o, k, _, _ := Exec(&m, op, val); op.K == "load" || op.K == "lad" {
+				if mv, mok := model[op.Key]; k != mok || o != mv {
+					return pbt.Fail("op %d %+v, repetition %d: returned (%d,%v), model says (%d,%v)", i, op, r, o, k, mv, mok)
+				}
+				if op.K == "lad" {
+					delete(model, op.Key)
+				}
+			} else if op.K == "store" {
+				model[op.Key] = val
+			} else if op.K == "los" {
+				if _, mok := model[op.Key]; !mok {
+					model[op.Key] = val
+				}
+			} else if op.K == "del" {
+				delete(model, op.Key)
+			}
+		}
+		if op.Rep > 1 {
+			labels["long-repetition"] = true
+		}
 		out, ok, pairs, calls := Exec(&m, op, val)
 		cur, present := model[op.Key]
 		where := func() string { return fmt.Sprintf("op %d %+v (model before: %v)", i, op, model) }
@@ -154,7 +175,14 @@ var specSeq = pbt.Register(&pbt.Spec[SeqCase]{
 		"every result compared with a map[int]int model, Range = exactly the model's pairs once each / exactly k callbacks on early stop; " +
 		"non-trivial = >=8 ops, crossed a dirty->read promotion and reached a layout with an expunged entry (layouts read through the tag-guarded VerifMapLayout hook)",
 	Gen: func(t *rapid.T) SeqCase {
-		return SeqCase{Ops: pbt.OpsOf(t, genMOp(4, true), []int{0, 4, 10, 20, 40}, "ops")}
+		ops := pbt.OpsOf(t, genMOp(4, true), []int{0, 4, 10, 20, 40}, "ops")
+		if len(ops) > 0 && rapid.IntRange(0, 29).Draw(t, "longrep") == 0 {
+			j := rapid.IntRange(0, len(ops)-1).Draw(t, "at")
+			if ops[j].K != "range" {
+				ops[j].Rep = rapid.SampledFrom([]int{300, 65536 + 5, 70000, 140000}).Draw(t, "rep")
+			}
+		}
+		return SeqCase{Ops: ops}
 	},
 	Run: RunSeq, Quick: 20000, Thorough: 200000,
 })
